@@ -1,9 +1,609 @@
-import StarsimModel.Model.Intervention
+/-
+C20 — Interventions reach only eligible agents, on schedule, within capacity.
+
+Property theorems only (helper lemmas: Lemmas/Intervention.lean; model: Model/Intervention.lean).
+The constants of the source (`adj_factor` branches, the annual→step conversion expression, the step gates, the
+capacity slice) come from Generated/DeliveryConsts.lean, regenerated from /repo/starsim/interventions.py on every run.
+Random streams (`draw`, `effDraw`, `pick`, `fails`) and eligibility rules are arbitrary: every theorem holds for all of them,
+for all prior records (= all histories) and, where stated for runs, for all run lengths.
+-/
+import StarsimModel.Lemmas.Intervention
 import StarsimModel.Generated.DeliveryConsts
+import Mathlib.Analysis.SpecialFunctions.Pow.Real
 
 namespace StarsimModel.C20
 open StarsimModel.Intervention
 
-theorem C20_capacity_offset : Gen.capSliceOffset ≤ 0 := by decide
+/-! ### The constants of the source, as the model sees them -/
+
+/-- the `adj_factor` constants of the checked-out source -/
+def srcAdj : AdjConsts := ⟨Gen.adjThreshold, Gen.adjFineSub, Gen.adjCoarse⟩
+
+def gateOf (onTi : Bool) : Gate := if onTi then .onTi else .onTimeObj
+
+/-- Obligations on the regenerated constants: the fine-step branch is `int(1/dt) - 1 if dt < 1`. -/
+theorem C20_adj_fine_form : Gen.adjThreshold = 1 ∧ Gen.adjFineSub = 1 := by decide
+
+/-- The source is one of the two known variants: today's (`else 1`, = `asis`) or the repaired one (`else 0`, = `spec`). -/
+theorem C20_variant_matched : srcAdj = AdjConsts.asis ∨ srcAdj = AdjConsts.spec := by decide
+
+/-- The capacity slice of `treat_num.get_candidates` is `queue[:max_capacity]` exactly. -/
+theorem C20_capacity_slice : Gen.capSliceOffset = 0 := by decide
+
+/-! ### Recipients are eligible (and eligible agents are active) -/
+
+/-- **Vaccination.** Whatever the schedule, gate, stream and prior records: everyone who receives the vaccine was
+    returned by the eligibility rule, accepted on the Bernoulli draw at the scheduled per-step probability, and —
+    when the rule is absent or a Boolean array — is an active agent. -/
+theorem C20_recipients_eligible (g : Gate) (conv : Rat → Rat) (s : Sched) (v : Vaccine) (ti : Int) (active : List Nat)
+    (e : Elig) (draw : Nat → Rat) (r r' : VxRec) (acc : List Nat)
+    (h : vxStep g conv s v ti active e draw r = .ok (acc, r')) :
+    acc = [] ∨ ∃ el k p, checkEligibility active e = .ok el ∧ gateIndex g s ti = some k ∧ stepProb conv s k = .ok p ∧
+      (∀ u ∈ acc, u ∈ el ∧ draw u < p) ∧ ((∀ l, e ≠ .uids l) → ∀ u ∈ acc, u ∈ active) := by
+  unfold vxStep at h
+  cases hg : gateIndex g s ti with
+  | none => simp [hg] at h; exact Or.inl h.1
+  | some k =>
+    simp only [hg] at h
+    cases hp : stepProb conv s k with
+    | error err => simp [hp] at h
+    | ok p =>
+      simp only [hp] at h
+      cases he : checkEligibility active e with
+      | error err => simp [he] at h
+      | ok el =>
+        simp only [he, Except.ok.injEq, Prod.mk.injEq] at h
+        right
+        refine ⟨el, k, p, rfl, rfl, hp, ?_, ?_⟩
+        · intro u hu
+          rw [← h.1] at hu
+          exact (mem_bernoulliFilter p draw el u).1 hu
+        · intro hk u hu
+          rw [← h.1] at hu
+          exact checkEligibility_active active e el he hk u ((mem_bernoulliFilter p draw el u).1 hu).1
+
+/-- A rule that returns uids is taken as given: with a uid that is not active the recipient is not active
+    (kernel-checked witness; this is the `partial` boundary of `C20_recipients_eligible`). -/
+theorem C20_uids_rule_counterexample :
+    ∃ acc r', vxStep .onTi id ⟨[0], [1], false, 1⟩ (.leaky 1) 0 [1, 2] (.uids [7]) (fun _ => 0)
+        ⟨fun _ => false, fun _ => 0, fun _ => none, fun _ => 1⟩ = .ok (acc, r') ∧ 7 ∈ acc ∧ 7 ∉ [1, 2] := by
+  refine ⟨[7], _, rfl, ?_, ?_⟩ <;> decide
+
+/-- **Screening / triage.** Tested agents come from the eligibility result and accepted on their draw. -/
+theorem C20_tested_eligible (hasCov : Bool) (g : Gate) (conv : Rat → Rat) (s : Sched) (prod : DxProduct) (inState : Nat → Nat → Bool)
+    (ti : Int) (active : List Nat) (e : Elig) (draw : Nat → Rat) (pick : Nat → Nat → Nat) (r r' : TestRec) (acc : List Nat)
+    (h : screenStep hasCov g conv s prod inState ti active (checkEligibility active e) draw pick r = .ok (acc, r')) :
+    acc = [] ∨ ∃ el, checkEligibility active e = .ok el ∧ (∀ u ∈ acc, u ∈ el) ∧
+      ((∀ l, e ≠ .uids l) → ∀ u ∈ acc, u ∈ active) := by
+  unfold screenStep at h
+  cases hg : gateIndex g s ti with
+  | none => simp [hg] at h; exact Or.inl h.1
+  | some k =>
+    simp only [hg] at h
+    unfold deliverTest at h
+    cases hp : stepProb conv s k with
+    | error err => simp [hp] at h
+    | ok p =>
+      simp only [hp] at h
+      cases he : checkEligibility active e with
+      | error err => simp [he] at h
+      | ok el =>
+        simp only [he] at h
+        cases hasCov with
+        | false => simp at h
+        | true =>
+          simp only [Bool.not_true, Bool.false_eq_true, ↓reduceIte, Except.ok.injEq, Prod.mk.injEq] at h
+          right
+          refine ⟨el, rfl, ?_, ?_⟩
+          · intro u hu
+            rw [← h.1] at hu
+            exact ((mem_bernoulliFilter p draw el u).1 hu).1
+          · intro hk u hu
+            rw [← h.1] at hu
+            exact checkEligibility_active active e el he hk u ((mem_bernoulliFilter p draw el u).1 hu).1
+
+/-- **Treatment.** Everyone treated is eligible now and was in the queue or has just been accepted from the
+    eligible; everyone who joins the queue was eligible and accepted on the draw. -/
+theorem C20_treated_eligible (hiOff : Int) (cap : Option Nat) (p : Rat) (rows : List TxRow) (active eligAdd eligNow : List Nat)
+    (draw : Nat → Rat) (effDraw : Nat → Nat → Rat) (st : TreatState) :
+    let out := treatNumStep hiOff cap p rows active eligAdd eligNow draw effDraw st
+    (∀ u ∈ out.1, u ∈ eligNow ∧ (u ∈ st.queue ∨ (u ∈ eligAdd ∧ draw u < p))) ∧
+    (∀ u ∈ out.2.queue, u ∈ st.queue ∨ (u ∈ eligAdd ∧ draw u < p)) := by
+  have hq : ∀ u, u ∈ st.queue ++ treatAccept p draw eligAdd → u ∈ st.queue ∨ (u ∈ eligAdd ∧ draw u < p) := by
+    intro u hu
+    rcases List.mem_append.mp hu with h | h
+    · exact Or.inl h
+    · unfold treatAccept at h
+      by_cases he : eligAdd.isEmpty = true
+      · simp [he] at h
+      · simp only [he] at h
+        exact Or.inr ((mem_bernoulliFilter p draw eligAdd u).1 h)
+  have hc : ∀ q u, u ∈ getCandidates hiOff cap q → u ∈ q := by
+    intro q u hu
+    unfold getCandidates at hu
+    by_cases hq : q.isEmpty = true
+    · simp [hq] at hu
+    · simp only [hq] at hu
+      cases cap with
+      | none => exact hu
+      | some c =>
+        by_cases hcl : c > q.length
+        · simpa [hcl] using hu
+        · simp only [hcl, ↓reduceIte, pySliceTo] at hu
+          by_cases hn : 0 ≤ (c : Int) + hiOff
+          · simp only [hn, ↓reduceIte] at hu; exact List.mem_of_mem_take hu
+          · simp only [hn, ↓reduceIte] at hu; exact List.mem_of_mem_take hu
+  intro out
+  constructor
+  · intro u hu
+    have hu' : u ∈ treatSet hiOff cap (st.queue ++ treatAccept p draw eligAdd) eligNow := hu
+    unfold treatSet at hu'
+    rw [mem_sortU, List.mem_filter] at hu'
+    exact ⟨by simpa using hu'.2, hq u (hc _ u hu'.1)⟩
+  · intro u hu
+    have hu' : u ∈ (st.queue ++ treatAccept p draw eligAdd) := by
+      simp only [out, treatNumStep] at hu
+      split at hu <;> exact (List.mem_filter.mp hu).1
+    exact hq u hu'
+
+/-! ### Schedule: nothing outside the time points, the window -/
+
+/-- **Not outside the time points.** On a step that is not one of the schedule's time points nobody receives anything
+    and no record changes — vaccination, screening and triage alike; with the `sim.t in …` gate this is every step. -/
+theorem C20_not_outside_timepoints (g : Gate) (conv : Rat → Rat) (s : Sched) (ti : Int) (hti : ti ∉ s.timepoints ∨ g = .onTimeObj) :
+    (∀ v active e draw (r : VxRec), vxStep g conv s v ti active e draw r = .ok ([], r)) ∧
+    (∀ hc prod inState active elig draw pick (r : TestRec),
+        screenStep hc g conv s prod inState ti active elig draw pick r = .ok ([], r)) ∧
+    (∀ hc prod inState active elig draw pick,
+        triageStep hc g conv s prod inState ti active elig draw pick = .ok ([], List.replicate prod.nres [])) := by
+  have hg : gateIndex g s ti = none := by
+    cases g with
+    | onTimeObj => rfl
+    | onTi =>
+      rcases hti with h | h
+      · exact (findFirst_none ti s.timepoints).2 h
+      · cases h
+  refine ⟨?_, ?_, ?_⟩
+  · intros; simp [vxStep, hg]
+  · intros; simp [screenStep, hg]
+  · intros; simp [triageStep, hg]
+
+/-- The time points `init_pre` stores are exactly the integers from the start point to the end point. -/
+theorem routine_timepoints (c : AdjConsts) (i : RoutineIn) (s : Sched) (h : routineInit c i = .ok s) :
+    ∃ sy ey sp ep, routineWindow i = some (sy, ey) ∧ routinePoints c i sy ey = some (sp, ep) ∧
+      ∀ t, t ∈ s.timepoints ↔ (sp : Int) ≤ t ∧ t ≤ ep := by
+  unfold routineInit at h
+  split at h
+  · cases h
+  · cases hw : routineWindow i with
+    | none => simp [hw] at h
+    | some w =>
+      obtain ⟨sy, ey⟩ := w
+      simp only [hw] at h
+      cases hp : routinePoints c i sy ey with
+      | none => simp [hp] at h
+      | some q =>
+        obtain ⟨sp, ep⟩ := q
+        simp only [hp] at h
+        by_cases hn : ep - (sp : Int) + 1 < 0
+        · simp [hn] at h
+        · simp only [hn, ↓reduceIte] at h
+          cases hr : routineProb c i sy ey (intRange (sp : Int) (ep - (sp : Int) + 1).toNat).length with
+          | error e => simp [hr] at h
+          | ok pr =>
+            simp only [hr, Except.ok.injEq] at h
+            refine ⟨sy, ey, sp, ep, rfl, hp, ?_⟩
+            intro t
+            rw [← h]
+            simp only [mem_intRange]
+            constructor
+            · rintro ⟨h1, h2⟩; constructor <;> omega
+            · rintro ⟨h1, h2⟩; constructor <;> omega
+
+/-- year of step `t` on the sim's grid `y0, y0 + dt, …` -/
+def yearOf (y0 dt : Rat) (t : Int) : Rat := y0 + (t : Rat) * dt
+
+def gridYears (y0 dt : Rat) (n : Nat) : List Rat := (List.range n).map (fun (k : Nat) => y0 + (k : Rat) * dt)
+
+theorem findFirst_grid (y0 dt : Rat) (n : Nat) (y : Rat) (k : Nat) (h : findFirst y (gridYears y0 dt n) = some k) :
+    y = y0 + (k : Rat) * dt := by
+  have := findFirst_getElem y _ k h
+  simp only [gridYears, List.getElem?_map, Option.map_eq_some_iff] at this
+  obtain ⟨a, ha, rfl⟩ := this
+  by_cases hk : k < n
+  · simp [hk] at ha; subst ha; rfl
+  · simp [hk] at ha
+
+/-- Core of the window theorems: if `adj_factor * dt < 1` and `adj_factor ≥ 0`, every time point of an accepted
+    routine schedule lies in `[start_year, end_year + 1)`. -/
+theorem window_of_adj (c : AdjConsts) (i : RoutineIn) (y0 : Rat) (n : Nat) (hgrid : i.yearvec = gridYears y0 i.dt n)
+    (hdt : 0 < i.dt) (hadj : ((adjFactor c i.dt : Int) : Rat) * i.dt < 1)
+    (s : Sched) (h : routineInit c i = .ok s) :
+    ∃ sy ey, routineWindow i = some (sy, ey) ∧
+      ∀ t ∈ s.timepoints, sy ≤ yearOf y0 i.dt t ∧ yearOf y0 i.dt t < ey + 1 := by
+  obtain ⟨sy, ey, sp, ep, hw, hp, htp⟩ := routine_timepoints c i s h
+  refine ⟨sy, ey, hw, ?_⟩
+  intro t ht
+  obtain ⟨h1, h2⟩ := (htp t).1 ht
+  unfold routinePoints at hp
+  rw [hgrid] at hp
+  cases hs : findFirst sy (gridYears y0 i.dt n) with
+  | none => simp [hs] at hp
+  | some a =>
+    cases he : findFirst ey (gridYears y0 i.dt n) with
+    | none => simp [hs, he] at hp
+    | some b =>
+      simp only [hs, he, Option.some.injEq, Prod.mk.injEq] at hp
+      obtain ⟨rfl, rfl⟩ := hp
+      have hsy := findFirst_grid y0 i.dt n sy a hs
+      have hey := findFirst_grid y0 i.dt n ey b he
+      have h1' : ((a : Int) : Rat) ≤ (t : Rat) := by exact_mod_cast h1
+      have h2' : (t : Rat) ≤ (((b : Int) + adjFactor c i.dt : Int) : Rat) := by exact_mod_cast h2
+      push_cast at h1' h2'
+      unfold yearOf
+      constructor
+      · rw [hsy]; nlinarith
+      · rw [hey]; nlinarith
+
+/-- **Window (spec).** With the repaired constants (`adj_factor = 0` for `dt ≥ 1`), for every step size, grid, window,
+    probability vector: every delivery time point of an accepted routine schedule lies in `[start_year, end_year + 1)`. -/
+theorem C20_window_spec (i : RoutineIn) (y0 : Rat) (n : Nat) (hgrid : i.yearvec = gridYears y0 i.dt n)
+    (hdt : 0 < i.dt) (s : Sched) (h : routineInit .spec i = .ok s) :
+    ∃ sy ey, routineWindow i = some (sy, ey) ∧
+      ∀ t ∈ s.timepoints, sy ≤ yearOf y0 i.dt t ∧ yearOf y0 i.dt t < ey + 1 := by
+  apply window_of_adj .spec i y0 n hgrid hdt _ s h
+  unfold adjFactor AdjConsts.spec
+  by_cases h1 : i.dt < 1
+  · simp only [h1, ↓reduceIte]; exact adj_fine_lt_one i.dt hdt
+  · simp [h1]
+
+/-- **Window (partial, the checked-out source).** With the constants regenerated from the source, the same holds
+    whenever `dt < 1` (the hypothesis that excludes the known defect). -/
+theorem C20_window_partial (i : RoutineIn) (y0 : Rat) (n : Nat) (hgrid : i.yearvec = gridYears y0 i.dt n)
+    (hdt : 0 < i.dt) (hfine : i.dt < 1) (s : Sched) (h : routineInit srcAdj i = .ok s) :
+    ∃ sy ey, routineWindow i = some (sy, ey) ∧
+      ∀ t ∈ s.timepoints, sy ≤ yearOf y0 i.dt t ∧ yearOf y0 i.dt t < ey + 1 := by
+  apply window_of_adj srcAdj i y0 n hgrid hdt _ s h
+  have hc := C20_adj_fine_form
+  unfold adjFactor srcAdj
+  simp only [hc.1, hc.2, hfine, ↓reduceIte]
+  exact adj_fine_lt_one i.dt hdt
+
+/-- the witness of the known finding: sim 2000–2015, `dt = 1`, window 2005–2010 -/
+def witnessIn : RoutineIn :=
+  ⟨gridYears 2000 1 16, 2000, 2015, none, some 2005, some 2010, [1/2], true, 1⟩
+
+/-- **Window (as is): counterexample.** With today's constants (`adj_factor = 1` for `dt ≥ 1`) the schedule for the
+    window 2005–2010 at `dt = 1` contains step 11, whose year 2011 is not below `end_year + 1`. -/
+theorem C20_window_asis_counterexample :
+    ∃ s, routineInit .asis witnessIn = .ok s ∧ routineWindow witnessIn = some (2005, 2010) ∧
+      (11 : Int) ∈ s.timepoints ∧ ¬ (yearOf 2000 1 11 < 2010 + 1) := by
+  refine ⟨⟨[5, 6, 7, 8, 9, 10, 11], List.replicate 7 (1/2), true, 1⟩, by decide +kernel, by decide +kernel, by decide, by decide +kernel⟩
+
+/-- …and the repaired constants give 5..10 on the same input. -/
+theorem C20_window_spec_witness :
+    routineInit .spec witnessIn = .ok ⟨[5, 6, 7, 8, 9, 10], List.replicate 6 (1/2), true, 1⟩ := by decide +kernel
+
+/-! ### Capacity -/
+
+/-- **Capacity, FIFO.** With the slice of the source, a `treat_num` step treats at most `max_capacity` agents and only
+    agents among the first `max_capacity` entries of the queue (old queue followed by the newly accepted). -/
+theorem C20_capacity (c : Nat) (p : Rat) (rows : List TxRow) (active eligAdd eligNow : List Nat)
+    (draw : Nat → Rat) (effDraw : Nat → Nat → Rat) (st : TreatState) :
+    let out := treatNumStep Gen.capSliceOffset (some c) p rows active eligAdd eligNow draw effDraw st
+    out.1.length ≤ c ∧ ∀ u ∈ out.1, u ∈ (st.queue ++ treatAccept p draw eligAdd).take c := by
+  intro out
+  have hout : out.1 = sortU (((st.queue ++ treatAccept p draw eligAdd).take c).filter (fun u => decide (u ∈ eligNow))) := by
+    show treatSet Gen.capSliceOffset (some c) _ eligNow = _
+    rw [C20_capacity_slice]
+    unfold treatSet
+    rw [getCandidates_eq_take]
+  rw [hout]
+  constructor
+  · calc _ ≤ _ := length_sortU_le _
+      _ ≤ _ := List.length_filter_le _ _
+      _ ≤ c := by simp [List.length_take]
+  · intro u hu
+    rw [mem_sortU, List.mem_filter] at hu
+    exact hu.1
+
+/-- Without a capacity the whole queue is considered. -/
+theorem C20_no_capacity (hiOff : Int) (q : List Nat) : getCandidates hiOff none q = q := getCandidates_none hiOff q
+
+/-- The treated leave the queue, everybody else keeps their place (order preserved). -/
+theorem C20_queue_rebuilt (hiOff : Int) (cap : Option Nat) (p : Rat) (rows : List TxRow) (active eligAdd eligNow : List Nat)
+    (draw : Nat → Rat) (effDraw : Nat → Nat → Rat) (st : TreatState) :
+    let out := treatNumStep hiOff cap p rows active eligAdd eligNow draw effDraw st
+    out.2.queue = (st.queue ++ treatAccept p draw eligAdd).filter (fun u => decide (u ∉ out.1)) := by
+  intro out
+  simp only [out, treatNumStep]
+  split <;> rfl
+
+/-! ### Coverage conversion (over ℝ) -/
+
+open Real in
+/-- value of a regenerated probability expression at annual probability `p` and step `dt` -/
+noncomputable def evalR : Gen.PExpr → ℝ → ℝ → ℝ
+  | .p, p, _ => p
+  | .dt, _, dt => dt
+  | .one, _, _ => 1
+  | .const c, _, _ => (c : ℝ)
+  | .add a b, p, dt => evalR a p dt + evalR b p dt
+  | .sub a b, p, dt => evalR a p dt - evalR b p dt
+  | .mul a b, p, dt => evalR a p dt * evalR b p dt
+  | .div a b, p, dt => evalR a p dt / evalR b p dt
+  | .pow a b, p, dt => (evalR a p dt) ^ (evalR b p dt)
+
+/-- the per-step acceptance probability the property asks for -/
+noncomputable def stepProbR (p dt : ℝ) : ℝ := 1 - (1 - p) ^ dt
+
+/-- **Coverage conversion.** The expression in the source is `1 − (1 − p)^dt`. -/
+theorem C20_coverage_conversion (p dt : ℝ) : evalR Gen.probConversion p dt = stepProbR p dt := by
+  simp [Gen.probConversion, evalR, stepProbR]
+
+/-- …which is a probability, … -/
+theorem C20_coverage_in_unit (p dt : ℝ) (hp0 : 0 ≤ p) (hp1 : p ≤ 1) (hdt : 0 ≤ dt) :
+    0 ≤ stepProbR p dt ∧ stepProbR p dt ≤ 1 := by
+  unfold stepProbR
+  have h0 : 0 ≤ 1 - p := by linarith
+  have h1 : 1 - p ≤ 1 := by linarith
+  have := Real.rpow_le_one h0 h1 hdt
+  have := Real.rpow_nonneg h0 dt
+  constructor <;> linarith
+
+/-- …the identity for `dt = 1`, … -/
+theorem C20_coverage_dt_one (p : ℝ) : stepProbR p 1 = p := by
+  simp [stepProbR]
+
+/-- …and compounds back to the annual coverage: after `n` steps with `n·dt = 1` the probability of having accepted
+    at least once is exactly `p`. -/
+theorem C20_coverage_annual (p dt : ℝ) (n : ℕ) (hp1 : p ≤ 1) (h : (n : ℝ) * dt = 1) :
+    1 - (1 - stepProbR p dt) ^ n = p := by
+  have h1 : 0 ≤ 1 - p := by linarith
+  unfold stepProbR
+  rw [sub_sub_cancel, ← Real.rpow_natCast, ← Real.rpow_mul h1, mul_comm, h, Real.rpow_one]
+  ring
+
+/-- The executable step probability applies the conversion exactly when `annual_prob` is set. -/
+theorem C20_stepProb_uses_conversion (conv : Rat → Rat) (s : Sched) (k : Nat) (p : Rat) (hk : s.prob[k]? = some p) :
+    stepProb conv s k = .ok (if s.convert then conv p else p) := by
+  simp [stepProb, hk]
+
+/-! ### Effects are confined to recipients -/
+
+/-- **Vaccination.** Non-recipients keep every record and their susceptibility; recipients are marked, get one more
+    dose, the time stamp, and their `rel_sus` multiplied by the vaccine's factor. -/
+theorem C20_effects_confined (g : Gate) (conv : Rat → Rat) (s : Sched) (v : Vaccine) (ti : Int) (active : List Nat)
+    (e : Elig) (draw : Nat → Rat) (r r' : VxRec) (acc : List Nat)
+    (h : vxStep g conv s v ti active e draw r = .ok (acc, r')) :
+    (∀ u, u ∉ acc → r'.vaccinated u = r.vaccinated u ∧ r'.nDoses u = r.nDoses u ∧ r'.tiVacc u = r.tiVacc u ∧
+        r'.relSus u = r.relSus u) ∧
+    (∀ u ∈ acc, r'.vaccinated u = true ∧ r'.nDoses u = r.nDoses u + 1 ∧ r'.tiVacc u = some ti ∧
+        r'.relSus u = r.relSus u * v.factor u) := by
+  unfold vxStep at h
+  cases hg : gateIndex g s ti with
+  | none =>
+    simp only [hg, Except.ok.injEq, Prod.mk.injEq] at h
+    obtain ⟨rfl, rfl⟩ := h
+    simp
+  | some k =>
+    simp only [hg] at h
+    cases hp : stepProb conv s k with
+    | error err => simp [hp] at h
+    | ok p =>
+      simp only [hp] at h
+      cases he : checkEligibility active e with
+      | error err => simp [he] at h
+      | ok el =>
+        simp only [he, Except.ok.injEq, Prod.mk.injEq] at h
+        obtain ⟨rfl, rfl⟩ := h
+        constructor
+        · intro u hu; simp [vxApply, hu]
+        · intro u hu; simp [vxApply, hu]
+
+/-- **Diagnostics.** Every tested agent is listed under exactly one result, nobody else is listed. -/
+theorem C20_dx_outcomes (nres : Nat) (hn : 0 < nres) (rows : List DxRow) (inState : Nat → Nat → Bool) (active : List Nat)
+    (pick : Nat → Nat → Nat) (uids : List Nat) :
+    (∀ l ∈ dxAdminister nres rows inState active pick uids, ∀ u ∈ l, u ∈ uids) ∧
+    (∀ u ∈ uids, ∃ k, k < nres ∧ ∀ j, j < nres →
+        (u ∈ (dxAdminister nres rows inState active pick uids).getD j [] ↔ j = k)) := by
+  have hres : ∀ u, dxResult nres rows inState active pick u < nres := by
+    intro u
+    unfold dxResult
+    generalize rows.zipIdx = l
+    have : ∀ (l : List (DxRow × Nat)) (c : Nat), c < nres →
+        l.foldl (fun cur (rk : DxRow × Nat) =>
+          if inState rk.1.state u && decide (u ∈ active) then min (pick rk.2 u) cur else cur) c < nres := by
+      intro l
+      induction l with
+      | nil => intro c hc; simpa using hc
+      | cons x xs ih =>
+        intro c hc
+        simp only [List.foldl_cons]
+        apply ih
+        split
+        · exact lt_of_le_of_lt (Nat.min_le_right _ _) hc
+        · exact hc
+    exact this l (nres - 1) (by omega)
+  constructor
+  · intro l hl u hu
+    simp only [dxAdminister, List.mem_map, List.mem_range] at hl
+    obtain ⟨k, _, rfl⟩ := hl
+    exact (List.mem_filter.mp hu).1
+  · intro u hu
+    refine ⟨dxResult nres rows inState active pick u, hres u, ?_⟩
+    intro j hj
+    simp only [dxAdminister, List.getD_eq_getElem?_getD, List.getElem?_map, List.getElem?_range hj, Option.map_some,
+      Option.getD_some, List.mem_filter, decide_eq_true_eq]
+    constructor
+    · rintro ⟨_, h⟩; exact h.symm
+    · rintro rfl; exact ⟨hu, rfl⟩
+
+/-- **Screening.** Non-recipients keep their screening records. -/
+theorem C20_screening_confined (hasCov : Bool) (g : Gate) (conv : Rat → Rat) (s : Sched) (prod : DxProduct) (inState : Nat → Nat → Bool)
+    (ti : Int) (active : List Nat) (elig : Except Err (List Nat)) (draw : Nat → Rat) (pick : Nat → Nat → Nat) (r r' : TestRec)
+    (acc : List Nat) (h : screenStep hasCov g conv s prod inState ti active elig draw pick r = .ok (acc, r')) :
+    ∀ u, u ∉ acc → r'.screened u = r.screened u ∧ r'.screens u = r.screens u ∧ r'.tiScreened u = r.tiScreened u := by
+  unfold screenStep at h
+  cases hg : gateIndex g s ti with
+  | none =>
+    simp only [hg, Except.ok.injEq, Prod.mk.injEq] at h
+    obtain ⟨rfl, rfl⟩ := h
+    simp
+  | some k =>
+    simp only [hg] at h
+    cases hd : deliverTest hasCov conv s k prod inState active elig draw pick r.outcomes with
+    | error err => simp [hd] at h
+    | ok q =>
+      obtain ⟨a, o⟩ := q
+      simp only [hd, Except.ok.injEq, Prod.mk.injEq] at h
+      obtain ⟨rfl, rfl⟩ := h
+      intro u hu; simp [hu]
+
+/-- **Treatment product.** `Tx.administer` changes no state of an agent it was not given (or who is not active); the
+    successfully treated are among the given, active agents. -/
+theorem C20_tx_confined (rows : List TxRow) (active uids : List Nat) (effDraw : Nat → Nat → Rat) (fl : Flags) :
+    (∀ u, (u ∉ uids ∨ u ∉ active) → ∀ s, (txAdminister rows active uids effDraw fl).flags s u = fl s u) ∧
+    (∀ u ∈ (txAdminister rows active uids effDraw fl).successful, u ∈ uids ∧ u ∈ active) := by
+  constructor
+  · intro u hu s
+    exact txBlocks_frame rows 0 active uids effDraw fl u hu s
+  · intro u hu
+    simp only [txAdminister, mem_sortU] at hu
+    exact txBlocks_succ_sub rows 0 active uids effDraw fl u hu
+
+/-- …and a block does what its table row says: the successfully treated of a block were in the row's state, drew
+    below the efficacy, and end up in the row's post-state and (if different) out of the pre-state. -/
+theorem C20_tx_row_effect (row : TxRow) (j : Nat) (active uids : List Nat) (effDraw : Nat → Nat → Rat) (fl : Flags) :
+    ∀ u ∈ (txBlock row j active uids effDraw fl).1,
+      fl row.pre u = true ∧ effDraw j u < row.eff ∧ (txBlock row j active uids effDraw fl).2 row.post u = true ∧
+      (row.pre ≠ row.post → (txBlock row j active uids effDraw fl).2 row.pre u = false) := by
+  intro u hu
+  have h := txBlock_succ_sub row j active uids effDraw fl u hu
+  refine ⟨h.2.2.1, h.2.2.2, ?_, ?_⟩
+  · simp only [txBlock] at hu ⊢; simp [hu]
+  · intro hne
+    simp only [txBlock] at hu ⊢; simp [hu, hne]
+
+/-- **`treat_num` step.** Disease states of agents that are not treated in this step are untouched. -/
+theorem C20_treatment_confined (hiOff : Int) (cap : Option Nat) (p : Rat) (rows : List TxRow) (active eligAdd eligNow : List Nat)
+    (draw : Nat → Rat) (effDraw : Nat → Nat → Rat) (st : TreatState) :
+    let out := treatNumStep hiOff cap p rows active eligAdd eligNow draw effDraw st
+    ∀ u, u ∉ out.1 → ∀ s, out.2.flags s u = st.flags s u := by
+  intro out u hu s
+  simp only [out, treatNumStep] at hu ⊢
+  split
+  · rfl
+  · exact (C20_tx_confined rows active _ effDraw st.flags).1 u (Or.inl hu) s
+
+/-! ### A fully effective vaccine -/
+
+/-- **Fully effective vaccine.** Recipients of a vaccine of efficacy 1 (leaky or all-or-nothing) have relative
+    susceptibility 0 after the step, whatever it was before. -/
+theorem C20_full_vaccine_zero (g : Gate) (conv : Rat → Rat) (s : Sched) (v : Vaccine)
+    (hv : v = .leaky 1 ∨ ∃ f, v = .allOrNothing 1 f) (ti : Int) (active : List Nat)
+    (e : Elig) (draw : Nat → Rat) (r r' : VxRec) (acc : List Nat)
+    (h : vxStep g conv s v ti active e draw r = .ok (acc, r')) : ∀ u ∈ acc, r'.relSus u = 0 := by
+  intro u hu
+  have := ((C20_effects_confined g conv s v ti active e draw r r' acc h).2 u hu).2.2.2
+  rw [this]
+  rcases hv with rfl | ⟨f, rfl⟩ <;> simp [Vaccine.factor]
+
+/-- Susceptibility 0 is never undone by later vaccination steps of any vaccine, for every history. -/
+theorem C20_zero_persists (g : Gate) (conv : Rat → Rat) (s : Sched) (v : Vaccine) (hist : List StepIn) :
+    ∀ (r r' : VxRec) (accs : List (List Nat)), vxRun g conv s v hist r = .ok (accs, r') →
+      ∀ u, r.relSus u = 0 → r'.relSus u = 0 := by
+  induction hist with
+  | nil =>
+    intro r r' accs h u hu
+    simp only [vxRun, Except.ok.injEq, Prod.mk.injEq] at h
+    rw [← h.2]; exact hu
+  | cons x xs ih =>
+    intro r r' accs h u hu
+    simp only [vxRun] at h
+    cases h1 : vxStep g conv s v x.ti x.active x.elig x.draw r with
+    | error e => simp [h1] at h
+    | ok q =>
+      obtain ⟨acc, r1⟩ := q
+      simp only [h1] at h
+      cases h2 : vxRun g conv s v xs r1 with
+      | error e => simp [h2] at h
+      | ok q2 =>
+        obtain ⟨accs2, r2⟩ := q2
+        simp only [h2, Except.ok.injEq, Prod.mk.injEq] at h
+        rw [← h.2]
+        apply ih r1 r2 accs2 h2 u
+        have hc := C20_effects_confined g conv s v x.ti x.active x.elig x.draw r r1 acc h1
+        by_cases hm : u ∈ acc
+        · rw [(hc.2 u hm).2.2.2, hu]; simp
+        · rw [(hc.1 u hm).2.2.2]; exact hu
+
+/-- **Uninfectable.** An agent with relative susceptibility 0 is never infected over an edge, whatever the
+    transmission strength and the (non-negative) random draw — the per-edge comparison of the transmission kernel
+    (`p = beta·rel_trans·rel_sus`, infected iff `draw < p`; cf. C12). -/
+theorem C20_full_vaccine_uninfectable (betaTrans draw : Rat) (hd : 0 ≤ draw) : transmits betaTrans 0 draw = false := by
+  simp [transmits]; exact hd
+
+/-- Every step of every vaccination history delivers within the eligible agents of that step. -/
+theorem C20_history_recipients (g : Gate) (conv : Rat → Rat) (s : Sched) (v : Vaccine) (hist : List StepIn) :
+    ∀ (r r' : VxRec) (accs : List (List Nat)), vxRun g conv s v hist r = .ok (accs, r') →
+      List.Forall₂ (fun (x : StepIn) acc => acc = [] ∨ ∃ el, checkEligibility x.active x.elig = .ok el ∧ (∀ u ∈ acc, u ∈ el) ∧
+        x.ti ∈ s.timepoints) hist accs := by
+  induction hist with
+  | nil =>
+    intro r r' accs h
+    simp only [vxRun, Except.ok.injEq, Prod.mk.injEq] at h
+    rw [← h.1]; exact List.Forall₂.nil
+  | cons x xs ih =>
+    intro r r' accs h
+    simp only [vxRun] at h
+    cases h1 : vxStep g conv s v x.ti x.active x.elig x.draw r with
+    | error e => simp [h1] at h
+    | ok q =>
+      obtain ⟨acc, r1⟩ := q
+      simp only [h1] at h
+      cases h2 : vxRun g conv s v xs r1 with
+      | error e => simp [h2] at h
+      | ok q2 =>
+        obtain ⟨accs2, r2⟩ := q2
+        simp only [h2, Except.ok.injEq, Prod.mk.injEq] at h
+        rw [← h.1]
+        refine List.Forall₂.cons ?_ (ih r1 r2 accs2 h2)
+        rcases C20_recipients_eligible g conv s v x.ti x.active x.elig x.draw r r1 acc h1 with h0 | ⟨el, k, p, he, hg, _, hmem, _⟩
+        · exact Or.inl h0
+        · right
+          refine ⟨el, he, fun u hu => (hmem u hu).1, ?_⟩
+          cases g with
+          | onTimeObj => simp [gateIndex] at hg
+          | onTi =>
+            by_contra hnot
+            have := (findFirst_none x.ti s.timepoints).2 hnot
+            simp [gateIndex, this] at hg
+
+/-! ### Non-vacuity: concrete states meeting the hypotheses -/
+
+/-- a delivering vaccination step (time point 3 of the schedule; of the active agents 1, 2, 5 the rule excludes 2,
+    agent 5 declines on its draw, agent 1 is vaccinated and fully protected) -/
+example : (match vxStep .onTi id ⟨[2, 3, 4], [1/2, 1/2, 1/2], false, 1⟩ (.leaky 1) 3 [1, 2, 5] (.mask (fun u => u != 2))
+      (fun u => if u = 5 then 9/10 else 1/10) ⟨fun _ => false, fun _ => 0, fun _ => none, fun _ => 1⟩ with
+    | .ok (acc, r) => decide (acc = [1]) && decide (r.relSus 1 = 0) && decide (r.relSus 5 = 1) && decide (r.nDoses 1 = 1)
+    | .error _ => false) = true := by decide +kernel
+
+/-- hypotheses of `C20_window_spec` / `C20_window_partial`: a half-year grid and an accepted window -/
+example : routineInit .spec ⟨gridYears 2000 (1/2) 11, 2000, 2005, none, some 2001, some 2003, [3/10], true, 1/2⟩ =
+    .ok ⟨[2, 3, 4, 5, 6, 7], List.replicate 6 (3/10), true, 1/2⟩ := by decide +kernel
+
+/-- a capacity-limited step: queue [4,5,6], capacity 2, everyone eligible: 4 and 5 are treated, 6 waits -/
+example : (treatNumStep 0 (some 2) 1 [⟨1, 1, 0⟩] [4, 5, 6] [] [4, 5, 6] (fun _ => 0) (fun _ _ => 0)
+    ⟨[4, 5, 6], fun s _ => s == 1, [], []⟩).1 = [4, 5] := by decide +kernel
+
+example : (treatNumStep 0 (some 2) 1 [⟨1, 1, 0⟩] [4, 5, 6] [] [4, 5, 6] (fun _ => 0) (fun _ _ => 0)
+    ⟨[4, 5, 6], fun s _ => s == 1, [], []⟩).2.queue = [6] := by decide +kernel
+
+/-- `C20_coverage_annual`: four quarterly steps -/
+example : ((4 : ℕ) : ℝ) * (1 / 4 : ℝ) = 1 := by norm_num
+
+/-- `C20_dx_outcomes`: two results, one block -/
+example : dxAdminister 2 [⟨0⟩] (fun _ u => u == 1) [1, 2] (fun _ _ => 0) [1, 2] = [[1], [2]] := by decide +kernel
 
 end StarsimModel.C20
